@@ -163,10 +163,10 @@ def ref_scan(scs):
     return pairs
 
 
-def check_scan_shared(ctx, scs, objs, exp, case):
+def check_scan_shared(ctx, scs, objs, exp, case, a=None, tag="shared-row-objects"):
     from tola.assembly.assembly import Assembly
 
-    a = Assembly("a", scaffolds=objs)
+    a = a or Assembly("a", scaffolds=objs)
     try:
         got = a.find_overlapping_fragments()
     except Exception as e:  # noqa: BLE001
@@ -183,9 +183,9 @@ def check_scan_shared(ctx, scs, objs, exp, case):
         missing = [x for x in exp_desc if x not in got_desc][:3]
         extra = [x for x in got_desc if x not in exp_desc][:3]
         sig = "scan-missing-pair" if missing else ("scan-extra-pair" if extra else "scan-pair-multiplicity")
-        ctx.violation(f"{sig}:shared-row-objects", f"scan reports {len(got_desc)} pairs, reference {len(exp_desc)}; missing={missing} extra={extra}", case)
+        ctx.violation(f"{sig}:{tag}", f"scan reports {len(got_desc)} pairs, reference {len(exp_desc)}; missing={missing} extra={extra}", case)
         return
-    ctx.count("scan:in-process-shared")
+    ctx.count("scan:in-process-" + ("shared" if tag == "shared-row-objects" else tag))
 
 
 def check_scan(ctx, scs, via_cli, scratch, shared=False):
@@ -244,7 +244,16 @@ def check_scan(ctx, scs, via_cli, scratch, shared=False):
         p = Path(scratch) / "qc.agp"
         with p.open("w") as fh:
             format_agp(Assembly("a", scaffolds=build_scaffolds(scs)), fh)
-        if hash(str(scs)) % 2:
+        twice = hash(str(scs)) % 3 == 0
+        if twice:
+            # two input files whose names differ only in the directory (hap1/qc.agp hap2/qc.agp): each is reported
+            for sub in ("hap1", "hap2"):
+                (Path(scratch) / sub).mkdir(exist_ok=True)
+                (Path(scratch) / sub / "qc.agp").write_text(p.read_text())
+            ctx.count("scan:cli-same-stem-in-two-directories")
+            res = CliRunner().invoke(cli, [str(Path(scratch) / "hap1" / "qc.agp"), str(Path(scratch) / "hap2" / "qc.agp"), "--qc-overlaps"])
+            exp = [(a_, b_) for a_, b_ in exp] * 2
+        elif hash(str(scs)) % 2:
             res = CliRunner().invoke(cli, [str(p), "--qc-overlaps"])
         else:
             ctx.count("scan:cli-stdin")
@@ -286,6 +295,17 @@ def check_scan(ctx, scs, via_cli, scratch, shared=False):
         )
     if not exp and got is not None:
         ctx.count("note:empty-result-not-None")
+    if got_set == exp_set and not via_cli:
+        # the same Assembly object scanned again after one of its scaffolds got another row (a copy of an
+        # existing fragment: at least one new overlapping pair): the answer is that of the rows as they are now
+        from tola.assembly.fragment import Fragment
+
+        src = next((r for _, rows in scs for r in rows if r[0] == "F"), None)
+        if src is not None:
+            scs2 = [[n, [list(r) for r in rows]] for n, rows in scs]
+            scs2[-1][1].append(["F", src[1], src[2], src[3], src[4], []])
+            objs[-1].add_row(Fragment(src[1], src[2], src[3], src[4]))
+            check_scan_shared(ctx, scs2, objs, ref_scan(scs2), {**case, "rescan": True}, a=a, tag="rescan-after-edit")
     if len(ctx.samples) < 2 and exp:
         ctx.sample({"scaffolds": [f"{n}: " + " | ".join(fmt_row(r) for r in rows) for n, rows in scs], "overlapping_pairs": sorted(exp)[:6]})
 
@@ -329,6 +349,8 @@ def gates(c, tier):
         "exhaustive:parts": 4,
         "scan:one-object-in-several-rows": 200,
         "scan:in-process-shared": 1000,
+        "scan:in-process-rescan-after-edit": 2000,
+        "scan:cli-same-stem-in-two-directories": 300,
         "pairs:overlap": 1000,
         "pairs:abut": 500,
         "pairs:gap": 1000,
